@@ -132,6 +132,11 @@ class Driver:
         self.n = 0
 
     def start(self):
+        main = os.environ.get('NAVIS_DRV_MAIN')   # development: interpret a per-property main file
+        if main:
+            cmd = ['lake', 'env', 'lean', '--run', main]
+            self.p = subprocess.Popen(cmd, cwd=LEAN, stdin=subprocess.PIPE, stdout=subprocess.PIPE, text=True, bufsize=1)
+            return
         if not DRV.exists():
             raise RuntimeError('navisdrv not built')
         self.p = subprocess.Popen([str(DRV)], stdin=subprocess.PIPE, stdout=subprocess.PIPE, text=True, bufsize=1)
@@ -163,10 +168,13 @@ class Driver:
 # Known findings
 # ------------------------------------------------------------------------------------------------
 def load_known():
-    f = ROOT / 'known_findings.json'
-    if not f.exists():
-        return []
-    return json.loads(f.read_text()).get('findings', [])
+    """known_findings.json plus known_findings/*.json (committed, never written at run time)."""
+    out = []
+    files = [ROOT / 'known_findings.json'] + sorted((ROOT / 'known_findings').glob('*.json'))
+    for f in files:
+        if f.exists():
+            out += json.loads(f.read_text()).get('findings', [])
+    return out
 
 
 # ------------------------------------------------------------------------------------------------
